@@ -100,6 +100,28 @@ class Outcome:
         self.transitions += int(getattr(r, "generated", 0))
 
 
+
+def _trim_sample(sample, budget: int = 40000):
+    """a recorded trace kept in the evidence file as an illustration: at most `budget` characters of compact JSON (the
+    complete traces are what TLC validated; a long one is cut after the events that fit)"""
+    js = json.dumps(sample)
+    if len(js) <= budget:
+        return sample
+    if isinstance(sample, dict) and isinstance(sample.get("ev"), list):
+        out = {k: v for k, v in sample.items() if k != "ev" and len(json.dumps(v)) <= budget // 4}
+        evs, used = [], 0
+        for e in sample["ev"]:
+            n = len(json.dumps(e))
+            if used + n > budget:
+                break
+            evs.append(e)
+            used += n
+        out["ev"] = evs
+        out["events_not_shown"] = len(sample["ev"]) - len(evs)
+        return out
+    return {"not_shown": True, "characters": len(js)}
+
+
 def finish(out: Outcome, *, level: str = "model_checking") -> int:
     """Adjudicate divergences against known findings, write replays + evidence, print verdicts."""
     known = load_known(out.prop)
@@ -144,7 +166,7 @@ def finish(out: Outcome, *, level: str = "model_checking") -> int:
         "states": max(out.states, 0),
         "transitions": max(out.transitions, 0),
         "traces_validated_against_impl": out.traces_validated,
-        "samples": out.samples[:6] if out.samples else [],
+        "samples": [_trim_sample(x) for x in out.samples[:6]] if out.samples else [],
         "evaluations": out.evaluations,
         "distinct_nontrivial": out.distinct_nontrivial,
         "rule": out.rule,
